@@ -89,6 +89,11 @@ CLAIMED = {
             "Generated Cancun programs mixing TLOAD/TSTORE/MCOPY with all call kinds, reverts, re-entrancy and two transactions per state; call trees with static frames nested in static frames; a (dst,src,len) boundary grid incl. overlaps, zero length with huge offsets and out-of-range operands. Every TLOAD result is predicted by the shadow store (per address, restored on frame failure, empty per transaction); TSTORE in static context must fail with write protection; both cost 100; after each MCOPY memory = overlap-safe memmove on zero-extended memory, MSIZE and gas per EIP-5656; pre-Cancun the three bytes are invalid instructions; transient-storage programs agree with upstream Shanghai+EIP-1153.",
             "EIP texts as published; upstream's EIP-1153 as differential reference; MCOPY content check needs the step's memory copy.",
             "DESIGN.md §3 C15"),
+    "C16": ("exploration",
+            "repeated-execution monitor: byte comparison of canonical serialisations (every list-valued query in returned order) across K in-process repetitions, A-alone vs A-interleaved-with-B isolation runs, constants canary",
+            "The same transaction runs K=30 (quick) / 200 (thorough) times on equal pre-state in fresh EVMs in one process; return data, gas, error, state root, logs, full call tree, balance journals, every Children/ChildrenIndices/IndicesOfChanges/ChildrenOf result in returned order and the complete hook dump must be byte-identical. An unrelated execution B (other EVM/state, possibly other extra EIPs on the same fork) run to completion in the middle of A's execution and afterwards must not change A's or B's answers; shared 256-bit constants are compared with their initial values after every case.",
+            "Map-order dependence is sampled statistically (Go re-randomises per range statement); interleaving is at step granularity in one goroutine (true concurrency is C17).",
+            "DESIGN.md §3 C16"),
 }
 
 # Properties not (yet) claimed. Reason must be current.
